@@ -460,7 +460,7 @@ def main(tier):
                        "in the bounds on T", "keep-alive (ping_timeout capping) is off"]
     exe = build.ensure_world("asan")
     if tier == "quick":
-        ncli, nsrv, nfirst = 1600, 400, 8
+        ncli, nsrv, nfirst = 4000, 1000, 8
     else:
         ncli, nsrv, nfirst = 20000, 4000, 10
     jobs = []
